@@ -37,7 +37,7 @@ def cases(d):
     wb = d.choice([3, 4, 5])
     fs = [{"name": "a", "kind": "bit", "w": wa, "signed": False, "rand": True, "init": 0},
           {"name": "b", "kind": "bit", "w": wb, "signed": False, "rand": True, "init": 0}]
-    has_c = d.chance(35)
+    has_c = d.chance(50)
     if has_c:
         fs.append({"name": "c", "kind": "bit", "w": d.choice([2, 3]), "signed": False, "rand": True, "init": 0})
     amax = (1 << wa) - 1
@@ -70,7 +70,18 @@ def cases(d):
         stmts.append(["expr", B("<=", F("c"), F("b"))] if d.chance(60) else ["unique", [F("a"), F("c")]])
     # ordering directive
     o = d.randint(0, 99)
-    if not has_c:
+    two_before = has_c and d.chance(65)
+    if two_before:
+        # a and b are independent (each only bounded), c is coupled to them: both must be chosen before c
+        stmts = [st for st in stmts if "b" not in sem.fields_of_stmt(st) or "a" not in sem.fields_of_stmt(st)]
+        stmts = [st for st in stmts if "c" not in sem.fields_of_stmt(st)]
+        stmts.append(["expr", B("<=", F("c"), F("b"))])
+        if d.chance(50):
+            stmts.append(["expr", B("!=", F("c"), F("a"))])
+        if d.chance(50):
+            stmts.append(["expr", B("<=", F("b"), L(d.randint(2, (1 << wb) - 1)))])
+        order = [d.choice([["order", ["a", "b"], ["c"]], ["order", ["b", "a"], ["c"]]])]
+    elif not has_c:
         order = [["order", ["a"], ["b"]]]
     elif o < 35:
         order = [["order", ["a"], ["b", "c"]]]
@@ -96,14 +107,17 @@ def V(kind, detail, case, extra=None):
     return v
 
 
-def histogram(ns, obj, fields, n, seed):
+def histogram(ns, obj, fields, n, seed, var="a"):
+    """-> histogram of `var`; the histograms of all fields are kept in histogram.last"""
     obj.set_randstate(flat.mk_randstate(seed))
-    h = {}
+    hs = {f["name"]: {} for f in fields}
     for i in range(n):
         obj.randomize()
-        a = int(obj.a)
-        h[a] = h.get(a, 0) + 1
-    return h
+        for f in fields:
+            v = int(getattr(obj, f["name"]))
+            hs[f["name"]][v] = hs[f["name"]].get(v, 0) + 1
+    histogram.last = hs
+    return hs[var]
 
 
 def uniform_check(h, feas, n):
@@ -181,6 +195,23 @@ def run_case(case, n_draws=3000):
                 return [V("not_uniform", "earlier variable is not uniform over its feasible values", case,
                           "%d draws: a=%d seen %d times (expected %.1f), exact two-sided tail e^%.1f; histogram %s; companions %s"
                           % (n_draws, bad[0], bad[1], n_draws / float(len(feas)), bad[2], sorted(h.items()), sorted(comp.items())))], info
+            # every other variable that is only ever on the 'before' side must be uniform too when it is independent of
+            # the other before-variables and its inferred range equals its feasible set
+            orders = [st for st in stmts if st[0] == "order"]
+            befores = set(x for st in orders for x in st[1]) - set(x for st in orders for x in st[2])
+            for vname in sorted(befores - {"a"}):
+                iv = names.index(vname)
+                fv = sorted(set(s_[iv] for s_ in sols))
+                pairs = set((s_[ia], s_[iv]) for s_ in sols)
+                indep = len(pairs) == len(feas) * len(fv)
+                rgv = cap["ranges"].get(vname)
+                if indep and len(fv) >= 2 and rgv and len(rgv) == 1 and sorted(rgv[0]) == [fv[0], fv[-1]] and fv == list(range(fv[0], fv[-1] + 1)):
+                    badv, worstv = uniform_check(histogram.last[vname], fv, n_draws)
+                    info["second_before_var"] = True
+                    if badv:
+                        return [V("not_uniform", "a variable listed on the 'before' side is not uniform over its feasible values", case,
+                                  "%d draws: %s=%d seen %d times (expected %.1f), tail e^%.1f; histogram %s"
+                                  % (n_draws, vname, badv[0], badv[1], n_draws / float(len(fv)), badv[2], sorted(histogram.last[vname].items())))], info
             # variant P': same feasible(a), different companion counts
             stm2 = stmts + [case["variant"]]
             r2 = flat.enumerate_solutions(types, fields, env0, stm2)
@@ -235,6 +266,8 @@ def run_shard(spec, seed, tier, acc):
             acc.label("draws", nd)
         if info.get("variant"):
             acc.label("variant tested")
+        if info.get("second_before_var"):
+            acc.label("second before-variable tested")
         if info.get("skew", 1) >= 4:
             acc.label("skew >= 4x")
         if "control_worst_logp" in info:
